@@ -442,8 +442,12 @@ class NumpyBackend(BackendBase[NumericArray]):
             """Special sympy printer returning numpy arrays."""
 
             def _print_ImmutableDenseNDimArray(self, arr):
-                arrays = ", ".join(f"asarray({self._print(expr)})" for expr in arr)
-                return f"array(broadcast_arrays({arrays}))"
+                # broadcast all entries together, so arrays of higher rank are correct
+                # even if only some of their rows contain array-valued entries
+                entries = arr.reshape(len(arr))
+                arrays = ", ".join(f"asarray({self._print(expr)})" for expr in entries)
+                shape = ", ".join(str(int(dim)) for dim in arr.shape)
+                return f"_restore_tensor(broadcast_arrays({arrays}), ({shape},))"
 
             def _print_Mod(self, expr):
                 # always use parentheses, since sympy omits them in negative products
@@ -466,10 +470,14 @@ class NumpyBackend(BackendBase[NumericArray]):
 
         # turn the expression into a callable function
         self._logger.info("Parse sympy expression `%s`", expression._sympy_expr)
+        def _restore_tensor(entries, shape):
+            """Combine the broadcasted entries to an array with tensorial shape."""
+            return np.array(entries).reshape(shape + np.shape(entries[0]))
+
         func = sympy.lambdify(
             variables + constants,
             expression._sympy_expr,
-            modules=[user_functions, "numpy"],
+            modules=[{"_restore_tensor": _restore_tensor}, user_functions, "numpy"],
             printer=printer,
         )
 
